@@ -10,6 +10,7 @@ ENGINES = {
     "mdnssim":  {"mod": "h26", "go": "go1.26", "pkg": "./mdnssim"},
 }
 
+T_SIM = {"quick": 900, "thorough": 3600}
 EXPL = "exploration"
 FAULT = "fault_enumeration"
 
@@ -33,11 +34,65 @@ PROPS = {
         "floors": {"evaluations": 10000, "classes": 100},
         "assumptions": ["MdnsManager.Start provider selection replaced by the VerifAttach hook (fake provider)"],
     },
+    "C01": {
+        "level": EXPL,
+        "plan": [{"engine": "shipsim1", "timeout": T_SIM}, {"engine": "shipsim2", "timeout": T_SIM}],
+        "rule": "B1: one real ShipConnection in a synctest bubble; histories = cooperative prefix (every reachable handshake state, both roles, 5 trust "
+                "configurations) x every input class of the alphabet (valid/out-of-phase/mutated SHIP messages, data frames, timer expiries in "
+                "virtual time, approve/cancel, transport errors, write faults) + seeded random histories <= 24 events; B2: two real endpoints with "
+                "seeded interleavings. A case is distinct by (role, state at delivery, input class) / grant kind; the monitor flags any state >= hello-ok, "
+                "setup callback or payload delivery on a server-role connection without a grant (paired answer, auto-accept answer, user approval) or after a cancel",
+        "floors": {"evaluations": 3000, "classes": 80, "counters": {"shipsim1:scenarios-complete": 200}},
+        "assumptions": ["info provider answers mirror hub.Hub (trusted set on hello-ok is not counted as a grant)", "frames shorter than 2 bytes never reach the SHIP layer (ws layer)"],
+    },
+    "C03": {
+        "level": EXPL,
+        "plan": [{"engine": "shipsim2", "timeout": T_SIM}],
+        "rule": "two real endpoints (client/server role) joined by harness FIFO queues in a synctest bubble; configuration grid (trust mode x user "
+                "approve/cancel/never at a seeded virtual time x waiting allowed on either side x known/unknown/wrong SHIP ids) x seeded interleaving of "
+                "deliveries, close propagation and timer expiries; timely mode is checked against the outcome table of DESIGN.md appendix D, arbitrary mode "
+                "for agreement at quiescence; a case is distinct by its interleaving signature (hash of the choice list) and outcome class",
+        "floors": {"evaluations": 1000, "classes": 300, "counters": {"shipsim2:timely:both-complete-open": 50}},
+        "assumptions": ["FIFO transport without loss", "approvals are not scheduled within 1.5 s of a timer boundary in timely mode", "horizon 12 virtual minutes"],
+    },
+    "C04": {
+        "level": EXPL,
+        "plan": [{"engine": "shipsim1", "timeout": T_SIM}, {"engine": "shipsim2", "timeout": T_SIM}],
+        "rule": "same histories as C01 plus a transport found dead at every single write index of every cooperative run; the monitor compares every "
+                "reported transition with the role's specification graph (DESIGN.md appendix A) and checks finality after a terminal report (no progress "
+                "state, only closing frames, timer flag clear at quiescent snapshots, transport closed 2 virtual seconds later); distinct = edges, "
+                "(role,state,input class) pairs, (terminal outcome x later event) pairs observed",
+        "floors": {"evaluations": 3000, "classes": 150, "counters": {"shipsim1:write-fault-scenarios": 50}},
+        "assumptions": ["specification graph written by hand from model/types.go and the SHIP phase order", "a write fails only when the transport is closed (as ws.WebsocketConnection behaves)"],
+    },
+    "C06": {
+        "level": EXPL,
+        "plan": [{"engine": "shipsim1", "timeout": T_SIM}, {"engine": "shipsim2", "timeout": T_SIM}],
+        "rule": "B1: uniquely numbered data frames injected at every position of the handshake (before init, between handshake messages, after completion); "
+                "B2: both applications send from inside the setup callback, after it and from 1-4 concurrent goroutines while the peer's handshake tail is in flight; "
+                "oracle: payloads reach the reader only after the complete report, exactly once, in acceptance order, byte-equal to the expected standard-JSON payload, "
+                "none missing while the connection stays open; distinct = (accepted, handed over, delivered) count classes and buffered counts",
+        "floors": {"evaluations": 3000, "classes": 20},
+        "assumptions": ["payload bodies avoid the recorded C07 input classes (empty arrays)"],
+    },
     "C08": {
         "level": EXPL,
-        "plan": [{"engine": "shipsim1", "timeout": {"quick": 900, "thorough": 3000}}],
-        "rule": "x",
-        "floors": {"evaluations": 1000, "classes": 50},
+        "plan": [{"engine": "shipsim1", "timeout": T_SIM}],
+        "rule": "B1 histories (see C01): in every handshake state reachable by a cooperative prefix, both roles, each input of the alphabet (valid messages of "
+                "every phase, field removed/duplicated/ill-typed, empty lists, huge numbers, deep nesting, whitespace variants, NUL padding, wrong header bytes) "
+                "and byte-level mutations/arbitrary bytes; a panic is recovered at the entry point (or kills the child process, attributed by the scenario log), "
+                "a call that never returns is decided by the in-process watchdog from two goroutine dumps; distinct = (role, state, input class) pairs",
+        "floors": {"evaluations": 3000, "classes": 150, "counters": {"shipsim1:inputs-delivered": 5000}},
         "crash_decides": True,
+        "assumptions": ["inputs shorter than 2 bytes are rejected by the ws layer and not delivered here"],
+    },
+    "C09": {
+        "level": EXPL,
+        "plan": [{"engine": "shipsim1", "timeout": T_SIM}, {"engine": "shipsim2", "timeout": T_SIM}],
+        "rule": "grid stored id {none, A} x presented id {A, B, empty, missing, number, null, 4 KiB, unicode, array} x role x order of access request/reply x trust mode, "
+                "followed by further input; B2 with stored ids none/right/wrong on either side of two real endpoints; the presented id is read by an independent strict "
+                "parser (ambiguous mutated messages give no verdict); distinct = (role, stored?, presented class) pairs",
+        "floors": {"evaluations": 3000, "classes": 15},
+        "assumptions": ["messages containing the substring 'datagram' are routed to the SPINE path (documented rule) and not counted as presentations"],
     },
 }
